@@ -49,20 +49,23 @@ def lean_imports(module, seen=None):
     return seen
 
 
-def stage_build(prop):
+def stage_build(prop, modules=None):
     """A: kernel-check every theorem of the property (and build the driver). Returns (ok, log)."""
-    rc, out = sh(["lake", "build", "Simpleline.Props." + prop, "sldriver"], cwd=LEAN)
+    rc, out = sh(["lake", "build"] + ["Simpleline.Props." + m for m in (modules or [prop])] + ["sldriver"], cwd=LEAN)
     warn_sorry = "declaration uses 'sorry'" in out or "declaration uses `sorry`" in out
     return rc == 0 and not warn_sorry, out
 
 
-def stage_audit(prop):
+def stage_audit(prop, modules=None):
     """B: axioms of every property theorem, forbidden tokens in the sources it depends on."""
-    module = "Simpleline.Props." + prop
-    src = open(os.path.join(LEAN, module.replace(".", "/") + ".lean")).read()
-    theorems = re.findall(r"^theorem\s+([\w.']+)", strip_comments(src), re.M)
+    mods = ["Simpleline.Props." + m for m in (modules or [prop])]
+    theorems = []; files = []
+    for module in mods:
+        src = open(os.path.join(LEAN, module.replace(".", "/") + ".lean")).read()
+        theorems += re.findall(r"^theorem\s+([\w.']+)", strip_comments(src), re.M)
+        for f in lean_imports(module):
+            if f not in files: files.append(f)
     problems = []
-    files = lean_imports(module)
     for f in files:
         body = strip_comments(open(os.path.join(LEAN, f)).read())
         for m in FORBIDDEN.finditer(body):
@@ -70,7 +73,7 @@ def stage_audit(prop):
     os.makedirs(OUT, exist_ok=True)
     audit = os.path.join(OUT, "Audit_%s.lean" % prop)
     with open(audit, "w") as fh:
-        fh.write("import %s\nopen Simpleline\n" % module)
+        fh.write("".join("import %s\n" % m for m in mods) + "open Simpleline\n")
         for t in theorems:
             fh.write("#print axioms %s\n" % t)
     rc, out = sh(["lake", "env", "lean", audit], cwd=LEAN)
@@ -170,20 +173,22 @@ def run_check(prop, mod, tier, seed):
     violations = 0
     prop_mod = mod.__name__
 
-    ok_build, build_log = stage_build(prop)
+    modules = getattr(mod, "LEAN_MODULES", [prop])
+    ok_build, build_log = stage_build(prop, modules)
     theorems, axioms, audit_problems, files = ([], {}, [], [])
     driver_ok = os.path.exists(os.path.join(LEAN, ".lake", "build", "bin", "sldriver"))
     if ok_build:
-        theorems, axioms, audit_problems, files = stage_audit(prop)
+        theorems, axioms, audit_problems, files = stage_audit(prop, modules)
     else:
         # try to build at least the driver so that the failing-input search can use the model
         rc, _ = sh(["lake", "build", "sldriver"], cwd=LEAN)
         driver_ok = rc == 0
-        try:
-            src = open(os.path.join(LEAN, "Simpleline/Props/%s.lean" % prop)).read()
-            theorems = re.findall(r"^theorem\s+([\w.']+)", strip_comments(src), re.M)
-        except OSError:
-            pass
+        for m in modules:
+            try:
+                src = open(os.path.join(LEAN, "Simpleline/Props/%s.lean" % m)).read()
+                theorems += re.findall(r"^theorem\s+([\w.']+)", strip_comments(src), re.M)
+            except OSError:
+                pass
     proof_ok = ok_build and not audit_problems
 
     # ---- cases: corpus first, then generated
@@ -338,7 +343,7 @@ def run_check(prop, mod, tier, seed):
         "property_id": prop, "tier": tier, "seed": seed, "level": "proof",
         "coverage": {
             "obligations": len(theorems), "discharged": discharged,
-            "checker_cmd": "cd lean && lake build Simpleline.Props.%s && lake env lean ../out/Audit_%s.lean   (#print axioms for every theorem)" % (prop, prop),
+            "checker_cmd": "cd lean && lake build %s && lake env lean ../out/Audit_%s.lean   (#print axioms for every theorem)" % (" ".join("Simpleline.Props." + m for m in modules), prop),
             "trusted_base": ["Lean 4.33.0 kernel",
                              "axioms used by this property's theorems: " + ", ".join(sorted({a for t in theorems for a in axioms.get(t, [])}) or ["none"]),
                              "harness/ (correspondence check, adapters, JSON driver glue in lean/Driver)"] + list(mod.ASSUMPTIONS),
